@@ -92,10 +92,12 @@ theorem activateService_fresh (files : List SvcFile) (maxP : Nat) (x : ATx) (c :
             split
             · exact ⟨Or.inl ⟨rfl, rfl⟩, hwf⟩
             · split
-              · refine ⟨Or.inr ⟨n, some x.nspawn, hnone, rfl, ?_⟩, hwf' _ rfl⟩
-                exact findAct_append_new x.acts { name := n, exec := f.exec, entries := [{ conn := c, msg := m, auto := auto }], child := some x.nspawn }
-              · refine ⟨Or.inr ⟨n, none, hnone, rfl, ?_⟩, hwf' _ rfl⟩
-                exact findAct_append_new x.acts { name := n, exec := f.exec, entries := [{ conn := c, msg := m, auto := auto }] }
+              · exact ⟨Or.inl ⟨rfl, rfl⟩, hwf⟩
+              · split
+                · refine ⟨Or.inr ⟨n, some x.nspawn, hnone, rfl, ?_⟩, hwf' _ rfl⟩
+                  exact findAct_append_new x.acts { name := n, exec := f.exec, entries := [{ conn := c, msg := m, auto := auto }], child := some x.nspawn }
+                · refine ⟨Or.inr ⟨n, none, hnone, rfl, ?_⟩, hwf' _ rfl⟩
+                  exact findAct_append_new x.acts { name := n, exec := f.exec, entries := [{ conn := c, msg := m, auto := auto }] }
 
 /-- the effect of (part of) a step on the activation bookkeeping -/
 def Eff (x r : ATx) : Prop := StartsFresh x r ∧ (ActsWF x.acts → ActsWF r.acts)
@@ -129,7 +131,7 @@ theorem eff_activateService (files : List SvcFile) (maxP : Nat) (x : ATx) (c : C
   repeat' split
   all_goals first
     | exact Or.inl ⟨rfl, rfl⟩
-    | (rename_i hnone _ _; exact Or.inr ⟨n, _, hnone, rfl, findAct_append_new x.acts _⟩)
+    | (rename_i hnone _ _ _; exact Or.inr ⟨n, _, hnone, rfl, findAct_append_new x.acts _⟩)
 
 theorem eff_runMethodA (files : List SvcFile) (maxP : Nat) (x : ATx) (c : ConnId) (m : Msg) (i nm : Bytes) :
     Eff x (runMethodA files maxP x c m i nm).1 := by
